@@ -40,6 +40,9 @@ def style_catalogue():
         ('trailing-commas', S(trailing_comma=True)),
         ('bracket-breaks', S(bracket_breaks=True)),
         ('bracket-breaks-ctor', S(bracket_breaks=True, trailing_comma=True, ctor=['seq', 'sep', 'rep', 'alt'], parens='min')),
+        # grammar.txt accepts the literal flags in either case: B"s", "s"I, B/r/I
+        ('upper-flags', S(upper_flags=True)),
+        ('upper-flags-ctor', S(upper_flags=True, ctor=['seq', 'alt', 'opt'], quote="'")),
     ]
     for k in CTOR_KINDS:
         cat.append(('ctor-' + k, S(ctor=[k], parens='min')))
@@ -284,6 +287,18 @@ def run_shard(rec):
             continue
         G = gen.shape_grammar(('seq', [x, ('re', '[ab]*', False)]), gen.TEXT_LEAF_RULES)
         run_ast(rec, G, work.inputs_for(work.alphabet_for(x, False), maxlen), ('depth1',) + tag, styles)
+    # every kind of literal (text and bytes) under every style
+    for bytes_mode, zoo in ((False, gen.literal_zoo()), (True, gen.bytes_zoo())):
+        rest = ('bre' if bytes_mode else 're', '(?s).*', False)
+        for ztag, lit, alpha in zoo:
+            idx += 1
+            if not rec.mine(idx):
+                continue
+            G = gast.simple_grammar({'start': ('seq', [('alt', [lit, ('opt', lit)]), rest])})
+            ins = list(gen.all_strings(alpha, 3))
+            if bytes_mode:
+                ins = [t.encode('latin-1') for t in ins]
+            run_ast(rec, G, ins, ('literal', ztag), styles)
     # bounds and Sep option sets
     from . import c03
     for o in c03.all_sep_options():
